@@ -86,3 +86,48 @@ def check_trunc_cmp(rep, mod):
                     key='L-TRUNC-CMP|%s|%s' % (fn, i.line or 0), sample='%s: operands not both narrowed' % fn if fn == 'header_matches_pregen' else None)
     if one < 3:
         raise AnalysisBroken('L-TRUNC-CMP: the matcher no longer sees narrowed comparison operands at all (%d)' % one)
+
+
+# (function, compared constant): why a signed comparison of a value computed from avail_in / avail_out is intended
+SIGNED_OK = {('isal_inflate', '0'): 'avail_out of the INTERNAL window was just computed as sizeof(tmp_out_buffer) - ISAL_LOOK_AHEAD - tmp_out_valid, which may be negative; it is clamped to 0'}
+
+
+def check_avail_unsigned(rep, mod, offz, offi):
+    """avail_in / avail_out are 32-bit UNSIGNED byte counts supplied by the caller: a chunk of 2 GiB or more is legal"""
+    R = rep.rule('L-AVAIL-UNSIGNED', 'every 32-bit (or narrower) comparison one of whose operands is computed directly (add / sub / casts / phi) from a loaded avail_in or avail_out field uses an unsigned predicate or '
+                 'equality: no byte count of 2^31 or more supplied by the caller is taken for negative (e.g. "not enough input" for a 2 GiB chunk, followed by a copy of the whole chunk into a small buffer)',
+                 floor=60, unit='comparisons on avail_in / avail_out')
+    for fn, f in sorted(mod.funcs.items()):
+        pz = [n for n, (t_, _) in enumerate(f.params) if 'struct.isal_zstream*' in t_]
+        pi = [n for n, (t_, _) in enumerate(f.params) if 'struct.inflate_state*' in t_]
+        if not pz and not pi:
+            continue
+        P = irrules.prov(mod, f)
+        cells = set()
+        for n in pz:
+            cells |= {('param', n, o) for o in offz.values()}
+        for n in pi:
+            cells |= {('param', n, o) for o in offi.values()}
+
+        def direct(v, depth=0):
+            d = f.defs.get(v)
+            if d is None or depth > 6:
+                return False
+            if d.op == 'load':
+                at = P.atoms(d.ops[0])
+                return len(at) == 1 and bool(at & cells)
+            if d.op in ('add', 'sub', 'zext', 'sext', 'trunc', 'freeze'):
+                return any(direct(o, depth + 1) for o in d.ops if o.startswith('%'))
+            if d.op == 'phi':
+                return any(direct(x, depth + 1) for x, _ in d.extra['incoming'] if x.startswith('%'))
+            return False
+        for i in f.all_insns():
+            if i.op != 'icmp' or (i.ty or '') not in ('i32', 'i16', 'i8'):
+                continue
+            if not any(o.startswith('%') and direct(o) for o in i.ops[:2]):
+                continue
+            R.instance()
+            signed = i.extra['pred'] in ('slt', 'sgt', 'sle', 'sge')
+            ok = not signed or (fn, i.ops[1]) in SIGNED_OK
+            R.check(ok, mod.where(f, i), '%s compares a value computed from avail_in / avail_out as a SIGNED %s quantity (%s): a count of 2^31 bytes or more is taken for negative' % (fn, i.ty, i.extra['pred']),
+                    key='L-AVAIL-UNSIGNED|%s|%s' % (fn, i.line or 0), sample='%s: unsigned' % fn if fn == 'fixed_size_read' else None)
